@@ -48,4 +48,49 @@ contract Explore.exploreOnce
         && t.rt.TotalSeries == toint(gLastProbe.Total))
   modifies target.ScrapeStatus.* at {t.rt}, target.Target.Series at {t.target}, target.Target.TotalSeries at {t.target}, elems(target.ScrapeStatus.lastSeries) at {},
            gLastProbe, tkestack.io/kvass/pkg/scrape.StatisticsSeriesResult.* at {}, net/url.URL.* at {}, gClock
+
+// ---------- C17: the explorer's table tracks exactly the targets of the latest update ----------
+// witnesses: for every hash put into the new table, the job and position of the target it came from
+ghost global gXJob seq[int]
+ghost global gXIdx seq[int]
+on insert_local "map[uint64]*tkestack.io/kvass/pkg/explore.exploringTarget"(m, k, v) in Explore.UpdateTargets
+   do gXJob = seqset(gXJob, k, job)
+   do gXIdx = seqset(gXIdx, k, idx2)
+
+pred fromUpdate(h, targets) = gXJob[h] in targets && 0 <= gXIdx[h] && gXIdx[h] < len(targets[gXJob[h]]) && targets[gXJob[h]][gXIdx[h]].ShardTarget.Hash == h
+
+contract Explore.UpdateTargets
+  requires e != nil && (forall jn, ts in targets :: forall t in ts :: t != nil && t.ShardTarget != nil)
+  ensures[C17] @every_target_of_the_update_is_tracked forall jn, ts in targets :: forall t in ts :: (t.ShardTarget.Hash in e.targets)
+  ensures[C17] @only_targets_of_the_update_are_tracked forall h, x in e.targets :: x != nil && fromUpdate(h, targets)
+  ensures[C17] @known_targets_keep_their_entry forall h, x in e.targets :: (old(e.targets[h]) != nil ==> x == old(e.targets[h]))
+  ensures[C17] @new_targets_start_unexplored forall h, x in e.targets :: (old(e.targets[h]) == nil ==> (fresh(x) && !x.exploring && x.rt != nil && x.job == gXJob[h]
+        && x.target == targets[gXJob[h]][gXIdx[h]].ShardTarget))
+  modifies Explore.targets at {e}, mapof(Explore.targets) at {}, exploringTarget.* at {}, target.ScrapeStatus.* at {}, tkestack.io/kvass/pkg/scrape.StatisticsSeriesResult.* at {},
+           mapof(tkestack.io/kvass/pkg/scrape.StatisticsSeriesResult.MetricsTotal) at {}, gXJob, gXIdx
+  loop 1 invariant all != nil && fresh(all) && e.targets == old(e.targets) && samemap(e.targets)
+  loop 1 invariant forall jn in visited1 :: (jn in targets && forall t in targets[jn] :: (t.ShardTarget.Hash in all))
+  loop 1 invariant forall h, x in all :: x != nil && fromUpdate(h, targets)
+  loop 1 invariant forall h, x in all :: (old(e.targets[h]) != nil ==> x == old(e.targets[h]))
+  loop 1 invariant forall h, x in all :: (old(e.targets[h]) == nil ==> (fresh(x) && allocated(x) && !x.exploring && x.rt != nil && x.job == gXJob[h] && x.target == targets[gXJob[h]][gXIdx[h]].ShardTarget))
+  loop 2 invariant all != nil && fresh(all) && e.targets == old(e.targets) && samemap(e.targets)
+  loop 2 invariant forall jn in visited1 :: (jn != job ==> (jn in targets && forall t in targets[jn] :: (t.ShardTarget.Hash in all)))
+  loop 2 invariant job in targets && ts == targets[job] && (forall j in 0..idx2 :: ts[j].ShardTarget.Hash in all)
+  loop 2 invariant forall h, x in all :: x != nil && fromUpdate(h, targets)
+  loop 2 invariant forall h, x in all :: (old(e.targets[h]) != nil ==> x == old(e.targets[h]))
+  loop 2 invariant forall h, x in all :: (old(e.targets[h]) == nil ==> (fresh(x) && allocated(x) && !x.exploring && x.rt != nil && x.job == gXJob[h] && x.target == targets[gXJob[h]][gXIdx[h]].ShardTarget))
+
+// a reload keeps the entries of every job that is still configured and removes those of deleted jobs at once
+pred jobListed(j, cfg) = exists k in 0..len(cfg.Config.ScrapeConfigs) :: cfg.Config.ScrapeConfigs[k].JobName == j
+contract Explore.ApplyConfig
+  requires e != nil && cfg != nil && cfg.Config != nil && (forall j in cfg.Config.ScrapeConfigs :: j != nil) && (forall h, x in e.targets :: x != nil)
+  // package-level metric vectors are initialised by prometheus.NewGaugeVec / NewCounterVec (never nil)
+  requires exploredTotal != nil && exploringTotal != nil
+  ensures[C17] @targets_of_kept_jobs_stay forall h in old(keys(e.targets)) :: (jobListed(old(e.targets[h]).job, cfg) ==> (h in e.targets && e.targets[h] == old(e.targets[h])))
+  ensures[C17] @targets_of_deleted_jobs_go_at_once forall h, x in e.targets :: (h in old(keys(e.targets)) && x == old(e.targets[h]) && jobListed(x.job, cfg))
+  modifies Explore.targets at {e}, mapof(Explore.targets) at {}
+  loop 1 invariant fresh(jobs) && len(jobs) == idx1 && (forall k in 0..idx1 :: jobs[k] == cfg.Config.ScrapeConfigs[k].JobName)
+  loop 2 invariant newTargets != nil && fresh(newTargets) && deletedJobs != nil && fresh(deletedJobs) && e.targets == old(e.targets) && samemap(e.targets)
+  loop 2 invariant forall h, x in newTargets :: (h in visited2 && h in e.targets && x == e.targets[h] && jobListed(x.job, cfg))
+  loop 2 invariant forall h in visited2 :: (h in e.targets && (jobListed(e.targets[h].job, cfg) ==> h in newTargets))
 @*/
